@@ -32,15 +32,33 @@ def split_traces(out):
 HINTS_PATH = os.path.join(VERIF, 'strategy.json')
 try: HINTS = json.load(open(HINTS_PATH))
 except Exception: HINTS = {}
-STRATS = ['n', 'p', 'nk', 'pk']   # n: one multi-path-merging BMC query; p: cbmc --paths lifo (no merging); *k: one query per event kind
+STRATS = ['n', 'p', 'nk', 'pk', 'nkg', 'nkG']   # n: one multi-path-merging BMC query; p: cbmc --paths lifo (no merging); *k: one query per event kind;
+# g: additionally case-split on the first guard site the reference consults; G: on all sites it consults (one query per reference path;
+# payload and all other guard bits stay symbolic)
 
 
-def cbmc_once(job, strat, kind, witness, trace, timeout):
+def cbmc_once(job, strat, kind, witness, trace, timeout, gfix=None):
     u = job.unit
     extra = list(job.extra) + ['--verbosity', '8']
     if 'p' in strat: extra += ['--paths', 'lifo']
     if kind is not None: extra += ['-DVF_KIND=%d' % kind]
+    if gfix is not None: extra += ['-DVF_GFIX_MASK=%du' % gfix[0], '-DVF_GFIX_VAL=%du' % gfix[1]]
     return u.cbmc(job.h, witness=witness, timeout=timeout, unwind=job.unwind, extra=extra, trace=trace)
+
+
+def guard_splits(job, strat, kind):
+    if kind is None or ('g' not in strat and 'G' not in strat): return [None]
+    decs = job.unit.index[job.h].get('decs_by_kind', {}).get(kind) or job.unit.index[job.h].get('decs_by_kind', {}).get(str(kind)) or []
+    decs = [d for d in decs if d]
+    if not decs: return [None]
+    if 'G' in strat:
+        out = []
+        for d in decs:
+            mask = sum(1 << s_ for s_, _ in d); val = sum(1 << s_ for s_, v in d if v)
+            if (mask, val) not in out: out.append((mask, val))
+        return out
+    site = decs[0][0][0]
+    return [(1 << site, 0), (1 << site, 1 << site)]
 
 
 def merge_results(rs):
@@ -60,14 +78,15 @@ def attempt(job, strat, timeout):
     kinds = list(range(job.unit.nevents)) if 'k' in strat else [None]
     rs = []
     for k in kinds:
-        r = cbmc_once(job, strat, k, True, False, timeout)
-        if r['verdict'] == 'failed' and any('witness:reachable' not in f[1] for f in r['failed']):
-            # obtain one counterexample per failed assertion
-            r2 = cbmc_once(job, strat, k, False, True, timeout * 2)
-            r['traces'] = r2.get('traces', {})
-            r['time'] += r2['time']
-        rs.append(r)
-        if r['verdict'] in ('error', 'timeout'): break
+        for gfix in guard_splits(job, strat, k):
+            r = cbmc_once(job, strat, k, True, False, timeout, gfix)
+            if r['verdict'] == 'failed' and any('witness:reachable' not in f[1] for f in r['failed']):
+                # obtain one counterexample per failed assertion
+                r2 = cbmc_once(job, strat, k, False, True, timeout * 2, gfix)
+                r['traces'] = r2.get('traces', {})
+                r['time'] += r2['time']
+            rs.append(r)
+            if r['verdict'] in ('error', 'timeout'): return merge_results(rs)
     return merge_results(rs)
 
 
